@@ -272,6 +272,43 @@ theorem status_honest (n : ℕ) (c : ℕ → K) (status : ℤ) (resx : ℕ → K
       exact ⟨trivial, hy.symm, trivial⟩
     · simp [h] at hy
 
+/-- **`status_honest_grb_ort`**: the Gurobi interface gives no solution for the statuses
+INFEASIBLE (3), INF_OR_UNBD (4), UNBOUNDED (5) - whether or not Gurobi holds an incumbent (an
+unbounded MILP has one) - nor without an incumbent; the OR-Tools interface gives one only for
+OPTIMAL (0); and a `Solution` that carries a point carries the solver's point and value. -/
+theorem status_honest_grb_ort (status : ℤ) (inc : Bool) (objval : K) (resx : ℕ → K) :
+    ((status = 3 ∨ status = 4 ∨ status = 5 ∨ inc = false) →
+        (grbSolution status inc objval resx).objval = none ∧ (grbSolution status inc objval resx).x = none) ∧
+    (status ≠ 0 → (ortSolution status objval resx).objval = none ∧ (ortSolution status objval resx).x = none) ∧
+    (∀ y, (grbSolution status inc objval resx).x = some y →
+        status ≠ 3 ∧ status ≠ 4 ∧ status ≠ 5 ∧ inc = true ∧ y = resx ∧
+        (grbSolution status inc objval resx).objval = some objval) ∧
+    (∀ y, (ortSolution status objval resx).x = some y →
+        status = 0 ∧ y = resx ∧ (ortSolution status objval resx).objval = some objval) := by
+  refine ⟨fun h => ?_, fun h => ?_, fun y hy => ?_, fun y hy => ?_⟩
+  · unfold grbSolution
+    by_cases h1 : status = 3 ∨ status = 4 ∨ status = 5
+    · simp [h1]
+    · have : inc = false := by tauto
+      simp [h1, this]
+  · simp [ortSolution, h]
+  · unfold grbSolution at hy ⊢
+    by_cases h1 : status = 3 ∨ status = 4 ∨ status = 5
+    · simp [h1] at hy
+    · cases hi : inc with
+      | false => simp [h1, hi] at hy
+      | true =>
+        simp only [h1, hi, if_false, if_true, Option.some.injEq] at hy ⊢
+        refine ⟨?_, ?_, ?_, trivial, hy.symm, trivial⟩ <;> intro h <;> exact h1 (by simp [h])
+  · unfold ortSolution at hy ⊢
+    by_cases h : status = 0
+    · simp only [h, if_true, Option.some.injEq] at hy ⊢
+      exact ⟨trivial, hy.symm, trivial⟩
+    · simp [h] at hy
+
+/-- the incumbent of an unbounded MILP (status 5) is not reported -/
+example : (grbSolution 5 true (0 : ℚ) (fun _ => 0)).objval = none := by decide
+
 /-! ### Concrete instances and counter-examples -/
 
 section Examples
